@@ -444,12 +444,10 @@ def _augment_array_dataclass(
         def _dataclass_sequence_or_mapping_entries_are_identical(a, b):
             if isinstance(a, Mapping):
                 assert isinstance(b, Mapping)
+                # by key: the two mappings need not iterate in one order
                 return (
                     a.keys() == b.keys()
-                    and all(
-                        b_k is a_k
-                        for a_k, b_k in zip(
-                            a.values(), b.values(), strict=True)))
+                    and all(b[k] is a_k for k, a_k in a.items()))
             else:
                 return (
                     len(a) == len(b)
@@ -523,12 +521,10 @@ def _entries_are_identical(
         b: Sequence[Any] | Mapping[str, Any]) -> bool:
     if isinstance(a, Mapping):
         assert isinstance(b, Mapping)
+        # by key: the two mappings need not iterate in the same order
         return (
             a.keys() == b.keys()
-            and all(
-                b_k is a_k
-                for a_k, b_k in zip(
-                    a.values(), b.values(), strict=True)))
+            and all(b[k] is a_k for k, a_k in a.items()))
     else:
         return len(a) == len(b) and all(
             b_i is a_i
